@@ -16,6 +16,7 @@ func checkC18(c *Ctx) {
 	c18EvalContext(c)
 	c18Scopes(c)
 	c18Inherit(c)
+	c18LabelCount(c)
 	c08UnknownBody(c)  // R4: block specs agree on unknown bodies
 	c07Dynblock(c)     // R5: variables reported for expansion
 	c07VisitRecurse(c) // ChildBlockTypes feeds the dynamic-block walkers
@@ -487,4 +488,141 @@ func coveredUnlessNil(f *ssa.Function, v ssa.Value, via, at *ssa.BasicBlock) boo
 		return false
 	}
 	return !walk(f.Blocks[0])
+}
+
+// label.count: a dynamic block spec is accepted only with exactly as many label expressions as
+// the block type has label names.
+func c18LabelCount(c *Ctx) {
+	c.Rule("label.count: in expandBody.decodeSpec the label expressions that are stored in the expandSpec (and later become the labels of every generated block) come from hcl.ExprList only on paths where the comparisons of len(labelExprs) with len(blockS.LabelNames) have established equality (not greater and not less, or an equality test): a generated block with fewer labels than its schema declares is handed to Content/PartialContent as if it were well-formed, and consumers index labels by the schema's count")
+	fn := c.P.LookupFunc("ext/dynblock", "expandBody.decodeSpec")
+	if fn == nil {
+		c.CheckerFail("label.count", "anchor expandBody.decodeSpec does not resolve")
+		return
+	}
+	c.Fn(FuncName(fn))
+	// the store into expandSpec.labelExprs
+	n := 0
+	for _, b := range fn.Blocks {
+		for _, ins := range b.Instrs {
+			st, ok := ins.(*ssa.Store)
+			if !ok {
+				continue
+			}
+			fa, ok := st.Addr.(*ssa.FieldAddr)
+			if !ok {
+				continue
+			}
+			fv := fieldVarOf(fa.X.Type(), fa.Field)
+			if fv == nil || fv.Name() != "labelExprs" || !isNamed(fa.X.Type(), modPath+"/ext/dynblock", "expandSpec") {
+				continue
+			}
+			// origins of the stored value
+			type origin struct {
+				v     ssa.Value
+				at    *ssa.BasicBlock
+				extra []ctlEdge // the branch edge by which the predecessor enters the phi's block
+			}
+			var origins []origin
+			var expand func(v ssa.Value, at *ssa.BasicBlock, extra []ctlEdge, d int)
+			expand = func(v ssa.Value, at *ssa.BasicBlock, extra []ctlEdge, d int) {
+				if ph, ok := v.(*ssa.Phi); ok && d < 4 {
+					for i, e := range ph.Edges {
+						p := ph.Block().Preds[i]
+						var ex []ctlEdge
+						if pif, ok := p.Instrs[len(p.Instrs)-1].(*ssa.If); ok && p.Succs[0] != p.Succs[1] {
+							ex = append(ex, ctlEdge{pif, p.Succs[0] == ph.Block()})
+						}
+						expand(e, p, ex, d+1)
+					}
+					return
+				}
+				origins = append(origins, origin{v, at, extra})
+			}
+			expand(st.Val, b, nil, 0)
+			for _, o := range origins {
+				if cn, ok := o.v.(*ssa.Const); ok && cn.IsNil() {
+					continue // no labels attribute: the schema requires one whenever the type has labels
+				}
+				n++
+				c.Sites++
+				// comparisons of len(o.v) with len(<…>.LabelNames) on the way
+				notGreater, notLess := false, false
+				for _, ce := range append(append([]ctlEdge{}, o.extra...), ctlEdges(o.at)...) {
+					bo, ok := ce.iff.Cond.(*ssa.BinOp)
+					if !ok {
+						continue
+					}
+					isLenOf := func(v ssa.Value, want func(ssa.Value) bool) bool {
+						x := lenOf(stripConv(v))
+						return x != nil && want(x)
+					}
+					isExprs := func(x ssa.Value) bool { return x == o.v }
+					isNames := func(x ssa.Value) bool {
+						for fv := range fieldTrail(x) {
+							if fv.Name() == "LabelNames" {
+								return true
+							}
+						}
+						return false
+					}
+					op := bo.Op
+					switch {
+					case isLenOf(bo.X, isExprs) && isLenOf(bo.Y, isNames):
+					case isLenOf(bo.Y, isExprs) && isLenOf(bo.X, isNames):
+						switch op {
+						case token.LSS:
+							op = token.GTR
+						case token.GTR:
+							op = token.LSS
+						case token.LEQ:
+							op = token.GEQ
+						case token.GEQ:
+							op = token.LEQ
+						}
+					default:
+						continue
+					}
+					t := ce.onTrue
+					switch op {
+					case token.GTR:
+						if !t {
+							notGreater = true
+						}
+					case token.LSS:
+						if !t {
+							notLess = true
+						}
+					case token.LEQ:
+						if t {
+							notGreater = true
+						}
+					case token.GEQ:
+						if t {
+							notLess = true
+						}
+					case token.EQL:
+						if t {
+							notGreater, notLess = true, true
+						}
+					case token.NEQ:
+						if !t {
+							notGreater, notLess = true, true
+						}
+					}
+				}
+				why := ""
+				switch {
+				case !notLess && !notGreater:
+					why = "neither too few nor too many label expressions are excluded"
+				case !notLess:
+					why = "too few label expressions are not excluded"
+				case !notGreater:
+					why = "too many label expressions are not excluded"
+				}
+				c.Check(notLess && notGreater, "label.count", FuncName(fn)+":labelExprs", st.Pos(), "exactly len(LabelNames) label expressions",
+					"the label expressions of a dynamic block are accepted although "+why+": every generated block then has a label count that differs from the block type's schema")
+			}
+		}
+	}
+	c.Floor("label.count stores", n, 1, "the labelExprs of the expandSpec literal")
 }
